@@ -587,6 +587,8 @@ PROPS['C15'] = dict(
     units=[
         U(c15, 'prng', 25000, 1500000, wq=8, wt=10, label='c15-prng', asan_options='detect_leaks=0'),
         U(c15, 'rc', 1500, 40000, wq=3, wt=4, label='c15-rc', asan_options='detect_leaks=0'),
+        U(B('c15_clones', 'c15_clones.cpp', 'dynasan'), 'prng', 20000, 1200000, wq=2, wt=3, label='c15-clones-asan'),
+        U(B('c15_clones', 'c15_clones.cpp', 'dyn'), 'prng', 40000, 2500000, wq=2, wt=3, label='c15-clones-prod'),
     ],
     rule='cases: (text, path, second text). Texts: generated values rendered with random layouts (whitespace runs, pad 0..70, escaped '
          'strings, long keys) and one third of them mutated into invalid texts; paths: existing ones and wrong continuations; '
@@ -596,10 +598,14 @@ PROPS['C15'] = dict(
          'are byte-identical: accept/reject with error code and offset (collapsed to one class for the three string-literal '
          'codes, as the property allows), Dump, deep copy + FindMember (view / pointer+length) indices + CreateMap + HasMember + '
          'RemoveMember/Erase + Dump + ==, GetOnDemand error code or slice offset/length, ParseSchema result, UpdateLazy result. '
+         'Second harness (c15_clones, runtime-dispatch build only): the dispatcher, the SSE clone and the AVX2 clone of every '
+         'multi-versioned kernel (SkipString, SkipContainer, skip_space_safe, parseStringInplace, Quote) are called directly at every '
+         'quote / bracket / white-space position of valid, mutated, truncated and dense texts and must return the same result, cursor '
+         'and bytes (the resolver would only ever select one clone on this host). '
          'Non-trivial: >= 17 bytes with a string or whitespace run crossing a 16-byte boundary. evaluations counts the five '
          'pairwise comparisons per case as sub-evaluations.',
     min_evaluations=dict(quick=100000, thorough=2000000),
-    required_classes=['input:valid', 'input:truncate', 'input:replace'],
+    required_classes=['input:valid', 'input:truncate', 'input:replace', 'input:truncated', 'input:dense'],
     technique='differential property testing across six in-process build configurations of the library (rapidcheck + seeded PRNG)',
     assumptions=['the dynamic-dispatch resolver selects AVX2 on this host; its SSE branch is exercised through the static westmere '
                  'configuration only', 'g++ only: the dynamic-dispatch configuration does not link with clang 14'],
